@@ -3,8 +3,10 @@ package main
 
 import (
 	"verif/harness/internal/core"
+	_ "verif/harness/internal/engf"
 	_ "verif/harness/internal/engg"
-	// engines S, F and K are linked in once their checks are registered in MANIFEST.json
+	_ "verif/harness/internal/engs"
+	// engines K, H and L are linked in once their checks are registered in MANIFEST.json
 )
 
 func main() { core.Main() }
